@@ -30,6 +30,7 @@ pub fn c16_plan() -> Plan {
         thorough_histories: 40_000,
         s5: None,
         enumerate_session_end: None,
+        enumerate_symbols: None,
     }
 }
 
@@ -61,5 +62,6 @@ pub fn c19_plan() -> Plan {
         thorough_histories: 40_000,
         s5: None,
         enumerate_session_end: None,
+        enumerate_symbols: None,
     }
 }
